@@ -664,6 +664,47 @@ func (sc *Scope) call(x *SExpr) Val {
 			return intVal(App("to_int", a.T()))
 		}
 		sfail("floorInt in fp mode")
+	case "posInf", "negInf":
+		if e.FloatSort == "Real" {
+			// no real number is infinite: an unconstrained constant stands in (nothing can be derived from it)
+			return scalar(tFloat64, A("real."+x.Name))
+		}
+		if x.Name == "posInf" {
+			return scalar(tFloat64, A("(_ +oo 11 53)"))
+		}
+		return scalar(tFloat64, A("(_ -oo 11 53)"))
+	case "arrOf": // the backing array of a slice of scalars (for recursive spec functions)
+		a := arg(0)
+		sl, ok := a.Typ.Underlying().(*types.Slice)
+		if !ok {
+			sfail("arrOf(slice)")
+		}
+		ls := e.layout(sl.Elem())
+		if len(ls) != 1 {
+			sfail("arrOf: element type must be scalar")
+		}
+		n := "M." + typeKey(sl.Elem())
+		srt := ArrSort("Int", ArrSort("Int", ls[0].Sort))
+		vc.noteSort(n, srt)
+		return Val{Typ: nil, Leaves: []*Term{Sel(vc.sv(sc.state(), n, srt), a.sBase())}}
+	case "nan": // IEEE NaN test; no real number is NaN
+		a := arg(0)
+		if e.FloatSort == "Real" {
+			return boolVal(TFalse)
+		}
+		return boolVal(App("fp.isNaN", a.T()))
+	case "fin": // IEEE finiteness; every real number is finite
+		a := arg(0)
+		if e.FloatSort == "Real" {
+			return boolVal(TTrue)
+		}
+		return boolVal(And(Not(App("fp.isNaN", a.T())), Not(App("fp.isInfinite", a.T()))))
+	case "isNegative": // sign bit (true for -0 in fp mode)
+		a := arg(0)
+		if e.FloatSort == "Real" {
+			return boolVal(App("<", a.T(), A("0.0")))
+		}
+		return boolVal(App("fp.isNegative", a.T()))
 	case "isNaN":
 		a := arg(0)
 		if e.FloatSort == "Real" {
@@ -780,7 +821,7 @@ func (sc *Scope) call(x *SExpr) Val {
 		var args []*Term
 		for i := range x.Args {
 			a := arg(i)
-			if i < len(uf.Args) && uf.Args[i] == "Real" && a.Typ != nil && isInteger(a.Typ) {
+			if i < len(uf.Args) && (uf.Args[i] == "Real" || uf.Args[i] == "Float") && a.Typ != nil && isInteger(a.Typ) {
 				if n, ok := isNumAtom(a.T()); ok {
 					a = scalar(tFloat64, e.floatLit(fmt.Sprint(n)))
 				}
@@ -791,7 +832,7 @@ func (sc *Scope) call(x *SExpr) Val {
 		switch uf.Ret {
 		case "Bool":
 			t = tBool
-		case "Real":
+		case "Real", "Float":
 			t = tFloat64
 		}
 		if strings.HasPrefix(uf.Ret, "(_ FloatingPoint") {
